@@ -88,6 +88,14 @@ func (e *Engine) VerifyFunc(b Bound) (u *Unit) {
 		u.assert("(> " + v.t + " 0)")
 		free = append(free, v)
 	}
+	// assumed facts about package-level variables
+	for _, gi := range e.CS.GlobalInvs {
+		genv := &specEnv{u: u, st: entry, old: entry, vars: map[string]Val{}, pkgPath: gi.PkgPath}
+		if t, err := genv.boolExpr(gi.C.E); err == nil {
+			u.assert(t)
+			u.globalInvs = append(u.globalInvs, gi)
+		}
+	}
 	// preconditions
 	penv := &specEnv{u: u, st: entry, old: entry, vars: map[string]Val{}, pkgPath: c.PkgPath, callee: fn, entryHeld: u.entryHeld}
 	for i, p := range fn.Params {
@@ -157,7 +165,7 @@ func (e *Engine) VerifyFunc(b Bound) (u *Unit) {
 			}
 			t, ex, err := env.goal(en.E)
 			if err != nil {
-				u.bindingError(fmt.Sprintf("ensures %d: %v", k+1, err))
+				u.UndecidedGoals = append(u.UndecidedGoals, fmt.Sprintf("binding: ensures %d: %v", k+1, err))
 				ok = false
 				break
 			}
